@@ -22,10 +22,10 @@ def grid(tier, seed):
     # scaled -> scaled
     sfixed = [('nrst', 'i16', -8, 'i16', -4), ('tpi', 'i16', -8, 'i8', -1), ('ninf', 'i16', -8, 'i32', 0), ('nrst', 'i32', -16, 'i32', -1),
               ('tpi', 'i32', -20, 'i16', -10), ('ninf', 'u16', -12, 'u8', -6), ('nrst', 'u8', -4, 'u8', 0), ('tpi', 'u32', -16, 'u32', -8),
-              ('nrst', 'i64', -24, 'i32', -12), ('nat', 'i16', -8, 'i16', -4), ('ninf', 'i16', -4, 'i16', -8), ('tpi', 'i8', -7, 'i8', 0)]
+              ('nrst', 'i64', -24, 'i32', -12), ('nat', 'i16', -8, 'i16', -4), ('nrst', 'i32', 4, 'i32', 8), ('tpi', 'i32', 2, 'i16', 6), ('ninf', 'i16', 3, 'i16', 5), ('ninf', 'i16', -4, 'i16', -8), ('tpi', 'i8', -7, 'i8', 0)]
     n = 10 if tier == 'quick' else 70
     reps = list(CT)
-    while len(sfixed) < 12 + n:
+    while len(sfixed) < 15 + n:
         t = rnd.choice(list(TAGS)); s = rnd.choice(reps); d = rnd.choice(reps)
         es = rnd.choice([-28, -20, -16, -12, -8, -4, -2]); ed = es + rnd.choice([1, 2, 3, 5, 8, 12])
         if ed - es >= int(s[1:]) - 1:
